@@ -217,11 +217,14 @@ class ASTTypeBuilder:
             fields=[
                 self._build_field(field_node) for field_node in type_def.fields
             ],
+            # has to be lazy to support (invalid) cyclic definition
             interfaces=(
-                [
-                    cast(InterfaceType, self.build_type(interface))
-                    for interface in type_def.interfaces
-                ]
+                (
+                    lambda: [
+                        cast(InterfaceType, self.build_type(interface))
+                        for interface in type_def.interfaces
+                    ]
+                )
                 if type_def.interfaces
                 else None
             ),
